@@ -43,6 +43,7 @@ fn checks() -> Vec<Check> {
         sim::c10::check(),
         sim::c11::check(),
         sim::c12::check(),
+        sim::c13::check(),
         sim::c14::check(),
         sim::c16::check(),
         sim::c20::check(),
